@@ -42,6 +42,10 @@ InvalidChecksum: ...
 Traceback (most recent call last):
     ...
 InvalidComponent: ...
+>>> validate('756.9217.0769.8A')
+Traceback (most recent call last):
+    ...
+InvalidFormat: ...
 >>> format('7569217076985')
 '756.9217.0769.85'
 """
